@@ -281,7 +281,7 @@ def oracle_crosscheck(res, emits, impl, mon, cidx):
     warn = p.stderr.count("invalid instruction encoding")
     res.coverage["oracle"] = {"tool": mc, "encodings": len(sample), "invalid_by_oracle": warn}
     if warn:
-        res.notes.append("SPEC-SUSPECT: llvm-mc-14 rejects %d of %d encodings the Lean monitor accepted (not analysed further: LLVM 14 lacks the newer extensions and the -mattr list is partial)" % (warn, len(sample)))
+        res.notes.append("SPEC-SUSPECT: llvm-mc-14 rejects %d of %d encodings the Lean monitor accepted (triaged in notes/C01.md round 3: ISA extensions newer than LLVM 14 / 67+VEX2 decoder limitation; the real ones became KF5-KF7)" % (warn, len(sample)))
 
 
 def replay(data):
